@@ -179,8 +179,18 @@ def gen_tree(rng: random.Random, P: Dict[str, Any]) -> Tree:
 
     p_dup = P.get("p_dup_key", 0.0)
 
+    p_prefix = P.get("p_prefix_key", 0.0)
+
     def newkey(parent=None):
         counter[0] += 1
+        if parent is not None and p_prefix and parent.children and rng.random() < p_prefix:
+            # a sibling whose name merely EXTENDS another sibling's name ("pay" / "payment"):
+            # id-prefix tests without the '.' separator confuse the two subtrees
+            base = rng.choice(parent.children).key
+            k = base + "x"
+            while any(c.key == k for c in parent.children):
+                k += "x"
+            return k
         if parent is not None and p_dup and rng.random() < p_dup:
             # local names are only unique among siblings: reuse a few names across parents
             used = {c.key for c in parent.children}
@@ -460,6 +470,9 @@ def _rand_effect(rng, case, tag):
     r = rng.random()
     if case.profile.get("p_neutral_fx") and rng.random() < case.profile["p_neutral_fx"]:
         return rng.choice([{"$": "emit", "ev": rng.choice(["X", "Y"])}, {"$": "logcb", "tag": tag}])
+    if case.profile.get("p_push_fx") and rng.random() < case.profile["p_push_fx"]:
+        # an updater that mutates a NESTED container of the context in place
+        return {"$": "push", "val": rng.randint(0, 9)}
     if r < 0.3:
         return {"$": "inc", "key": "n"}
     if r < 0.45:
@@ -586,6 +599,12 @@ def _mat_effect(e: Dict[str, Any]) -> Dict[str, Any]:
         key = e["key"]
         return {"type": "xstate.assign", "params": {"assignment": {
             key: (lambda a, _k=key: a["context"].get(_k, 0) + 1)}}}
+    if k == "push":
+        def upd(a, _v=e["val"]):
+            lst = a["context"].setdefault("log", [])
+            lst.append(_v)             # in place: visible through every alias of that list
+            return lst
+        return {"type": "xstate.assign", "params": {"assignment": {"log": upd}}}
     if k == "set":
         return {"type": "xstate.assign", "params": {"assignment": {e["key"]: e["val"]}}}
     if k == "raise":
